@@ -83,6 +83,7 @@ macro_rules! hset_api {
                     "empty" => HashSetMut::<$V>::from_bytes_mut(bytes).is_empty().to_string(),
                     "rhas" => HashSet::<$V>::from_bytes(bytes).contains(&v(0)).to_string(),
                     "rsize" => HashSet::<$V>::from_bytes(bytes).size().to_string(),
+                    "dlen" => HashSetMut::<$V>::data_len(op.args[0] as usize).to_string(),
                     "rcap" => HashSet::<$V>::from_bytes(bytes).capacity().to_string(),
                     "rfull" => HashSet::<$V>::from_bytes(bytes).is_full().to_string(),
                     "rempty" => HashSet::<$V>::from_bytes(bytes).is_empty().to_string(),
@@ -123,6 +124,9 @@ hset_api!(HU32, u32, 4);
 hset_api!(HU8, u8, 1);
 hset_api!(HWeak, WeakHash, 0);
 hset_api!(HA32, A32, 32);
+hset_api!(HU128, u128, 16);
+hset_api!(HTicket, Ticket, 4);
+hset_api!(HBps, Bps, 4);
 
 pub struct HDecoded {
     pub size: usize,
@@ -195,6 +199,13 @@ pub struct HSut<A: HApi> {
 }
 
 impl<A: HApi> HSut<A> {
+    /// the part of a value that `Eq`/`Hash` look at (the whole value except for `Ticket`)
+    fn key_of(v: i128) -> i128 {
+        if A::label().contains("ticket") { v & 0xffff_ffff } else { v }
+    }
+    fn keyed() -> bool {
+        A::label().contains("ticket")
+    }
     /// What the API itself reports (read-only view on a private copy): `contains` for every value of
     /// the universe, `size`, `capacity`, and the iteration. `None` if a query panics.
     fn api_contents(&self, state: &[u8]) -> Option<(BTreeSet<i128>, usize, usize, Vec<i128>)> {
@@ -209,7 +220,7 @@ impl<A: HApi> HSut<A> {
             let size: usize = A::call(copy.bytes_mut(), &Op::new("rsize", &[])).parse().unwrap();
             let cap: usize = A::call(copy.bytes_mut(), &Op::new("rcap", &[])).parse().unwrap();
             let it = A::call(copy.bytes_mut(), &Op::new("iter", &[]));
-            let items: Vec<i128> = it.trim_matches(|c| c == '[' || c == ']').split(',').filter(|s| !s.is_empty()).map(|s| s.parse().unwrap()).collect();
+            let items: Vec<i128> = it.trim_matches(|c| c == '[' || c == ']').split(',').filter(|s| !s.is_empty()).map(|s| Self::key_of(s.parse().unwrap())).collect();
             (m, size, cap, items)
         })
         .ok()
@@ -217,7 +228,7 @@ impl<A: HApi> HSut<A> {
     pub fn parse(&self, l: &str) -> Option<Op> {
         let mut it = l.split_whitespace();
         let name = it.next()?;
-        const NAMES: &[&str] = &["init", "open", "ins", "rem", "has", "size", "cap", "full", "empty", "rhas", "rsize", "rcap", "rfull", "rempty", "iter", "fill"];
+        const NAMES: &[&str] = &["init", "open", "ins", "rem", "has", "size", "cap", "full", "empty", "rhas", "rsize", "rcap", "rfull", "rempty", "iter", "fill", "dlen"];
         let n = NAMES.iter().find(|n| **n == name)?;
         Some(Op { name: n, args: it.filter_map(|a| a.parse().ok()).collect(), blob: None })
     }
@@ -241,7 +252,13 @@ impl<A: HApi> Sut for HSut<A> {
         let d = hdecode::<A>(state);
         let mut v = vec![];
         for x in &self.vals {
-            v.push(Op::new("ins", &[*x]));
+            if Self::keyed() {
+                // same id, two different stamps: a duplicate insert carries a different payload
+                v.push(Op::new("ins", &[*x | (1i128 << 32)]));
+                v.push(Op::new("ins", &[*x | (2i128 << 32)]));
+            } else {
+                v.push(Op::new("ins", &[*x]));
+            }
             v.push(Op::new("rem", &[*x]));
             v.push(Op::new("has", &[*x]));
             v.push(Op::new("rhas", &[*x]));
@@ -249,6 +266,7 @@ impl<A: HApi> Sut for HSut<A> {
         for n in ["size", "cap", "full", "empty", "rsize", "rcap", "rfull", "rempty", "iter", "open"] {
             v.push(Op::new(n, &[]));
         }
+        v.push(Op::new("dlen", &[(d.size + d.cap) as i128]));
         if self.fill {
             v.push(Op::new("fill", &[self.fresh_base, (d.cap + 2) as i128]));
         }
@@ -265,7 +283,7 @@ impl<A: HApi> Sut for HSut<A> {
             _ => if fullish { 35 } else { 55 },
         };
         if r < ins_p {
-            Op::new("ins", &[x])
+            Op::new("ins", &[if Self::keyed() { x | ((1 + rng.below(2) as i128) << 32) } else { x }])
         } else if r < 82 {
             Op::new("rem", &[x])
         } else if r < 88 {
@@ -297,7 +315,7 @@ impl<A: HApi> Sut for HSut<A> {
         A::val().1.max(4) % 16
     }
     fn sessionable(&self, op: &Op) -> bool {
-        !matches!(op.name, "open" | "fill" | "iter")
+        !matches!(op.name, "open" | "fill" | "iter" | "dlen")
     }
     fn session(&self, buf: &mut ABuf, ops: &[Op]) -> Option<Vec<String>> {
         guarded(|| A::session(buf.bytes_mut(), ops)).ok()
@@ -365,14 +383,22 @@ impl<A: HApi> Sut for HSut<A> {
             }
         }
         if let Some(pm) = &post_m {
-            let dm: BTreeSet<i128> = pm.iter().map(|x| x.2).filter(|v| self.vals.contains(v)).collect();
+            let dm: BTreeSet<i128> = pm.iter().map(|x| Self::key_of(x.2)).filter(|v| self.vals.contains(v)).collect();
             if dm != q || pm.len() != qsize {
                 f.push(Finding { property: "C10", what: format!("after `{}` the format decoder finds {:?} but the API reports {:?} (size {})", op.text(), dm, q, qsize) });
             }
         }
         let mut exp = m.clone();
-        let x = op.args.first().copied().unwrap_or(0);
+        let x = Self::key_of(op.args.first().copied().unwrap_or(0));
         let expected: Option<String> = match op.name {
+            "dlen" => {
+                let rec = if dq.slots > 0 { (post.len() - 16) / dq.slots } else { A::data_len(1) - A::data_len(0) };
+                let want = (16 + op.args[0] as usize * rec).to_string();
+                if want != out.result {
+                    f.push(Finding { property: "C10", what: format!("data_len({}) is {} but header + records is {}", op.args[0], out.result, want) });
+                }
+                None
+            }
             "ins" => Some((msize < mcap && exp.insert(x)).to_string()),
             "rem" => Some(exp.remove(&x).to_string()),
             "has" | "rhas" => Some(m.contains(&x).to_string()),
